@@ -379,6 +379,36 @@ def _site_lean(name: str, posts: list[dict] | None) -> tuple[str, bool]:
     return f"def {name}Prog : List PostSite := [\n{body}\n]", ok and bool(posts)
 
 
+def _cancel_guard(ctree: ast.AST) -> str:
+    """Idempotence guard of `HttpStreamSession.cancel`: the first statement decides whether a POST may follow."""
+    fn = _func(ctree, "HttpStreamSession", "cancel")
+    if fn is None:
+        return "unknown"
+    import copy
+
+    body = _strip(copy.deepcopy(fn).body)
+    if not body:
+        return "unknown"
+    st = body[0]
+    if isinstance(st, ast.If) and not st.orelse and st.body and isinstance(st.body[-1], ast.Return):
+        marks_finished = any(ast.unparse(x) == "self._finished = True" for x in st.body)
+        test = ast.unparse(st.test)
+        # after the guard: the token is taken, the session is marked finished and the token cleared BEFORE the POST
+        rest = [ast.unparse(x) for x in body[1:4]]
+        ordered = rest == ["token = self._state_bytes", "self._finished = True", "self._state_bytes = None"]
+        if test == "self._finished or self._state_bytes is None" and marks_finished and ordered:
+            return "finishedOrNoToken"
+        if test == "self._state_bytes is None":
+            return "noTokenOnly"
+        return "unknown"
+    srcs = [ast.unparse(x) for x in body[:3]]
+    if srcs[:1] == ["token, self._state_bytes = (self._state_bytes, None)"] and any(
+        isinstance(x, ast.If) and ast.unparse(x.test) == "token is None" for x in body[:3]
+    ):
+        return "noTokenOnly"
+    return "unknown"
+
+
 # ------------------------------------------------------------------------------------------------ emit
 
 
@@ -461,6 +491,7 @@ def emit() -> dict[str, str]:
         site_defs.append(text)
         sites_ok = sites_ok and ok
 
+    cancel_guard = _cancel_guard(ctree)
     clamp = "none" if dly["expClamp"] is None else f"some {dly['expClamp']}"
     clauses_lean = "[" + ", ".join("[" + ", ".join(_lean_str(c) for c in cl) + "]" for cl in clauses) + "]"
     order_lean = "[" + ", ".join(_lean_str(o) for o in val["order"]) + "]"
@@ -529,6 +560,15 @@ structure PostSite where
 deriving DecidableEq, Repr
 
 {chr(10).join(site_defs)}
+
+/-- what makes `HttpStreamSession.cancel()` return without POSTing -/
+inductive CancelGuard
+  | finishedOrNoToken   -- `if self._finished or self._state_bytes is None: …; return`, then finished := True, token := None, POST
+  | noTokenOnly         -- only the token is consulted (a token written back after a cancel re-arms it)
+  | unknown
+deriving DecidableEq, Repr
+
+def cancelGuard : CancelGuard := .{cancel_guard}
 
 /-- every call site was classified (guards recognised, posts go through the session's client) -/
 def sitesRecognised : Bool := {_b(sites_ok)}
